@@ -113,13 +113,13 @@ AllowedExact(s, e) == ActiveIn(Hist, EpochAt(s), EpochAt(e))
 
 Allowed(s, e) == IF plan.mode = "exact" THEN AllowedExact(s, e) ELSE AllowedFree(s, e)
 
-TokIdx == {i \in 1..Len(Trace) : Trace[i].ev = "token"}
-
 (* tokens served from the finalizer's cache count as created at their      *)
-(* creation time: all responses carrying one jti share the window          *)
-(* [earliest start, earliest end]                                          *)
+(* creation time: all responses of the run carrying one jti share the      *)
+(* window [earliest start, earliest end]                                   *)
 (* (t.dup: the driver marks jtis occurring more than once; purely an index) *)
-Group(t) == {i \in TokIdx : Trace[i].jti = t.jti}
+PlanLines == {i \in 1..Len(Trace) : Trace[i].ev = "plan"}
+RunEnd == Min({i \in PlanLines : i > pl} \cup {Len(Trace) + 1}) - 1
+Group(t) == {i \in pl..RunEnd : Trace[i].ev = "token" /\ Trace[i].jti = t.jti}
 Lo(t) == IF t.dup THEN Min({Trace[i].start : i \in Group(t)}) ELSE t.start
 Hi(t) == IF t.dup THEN Min({Trace[i].end : i \in Group(t)}) ELSE t.end
 
